@@ -17,8 +17,9 @@
      Call         after the walk: callee a Frozen builtin named "-" and a single constant numeric
                   argument -> the negated constant
      List         after the walk: all elements constant -> one Frozen list
-     For          clone; per clause: the iteratee / right-hand side, then bind the clause's name
-                  (order as repaired in /repo, see notes/C17.md), guards, then the body
+     For          the first iteratee in the enclosing environment (evaluate_for evaluates it there),
+                  then clone; per clause: the iteratee / right-hand side, then bind the clause's name,
+                  guards, then the body (as repaired in /repo, see notes/C17.md)
      While, Switch arm, Try handler, Lambda   clone, bind the pattern / parameter names
      Import       syntax error
    Definitions only. *)
@@ -119,7 +120,7 @@ Section Freeze.
                     Ok ((k, z, fst p) :: fst q, snd q)
                 end) (x :: snd p1) cls ;;
         pb <- freeze (snd r) body ;;
-        Ok (EFor x (fst p1) (fst r) y (fst pb), B)
+        Ok (EFor x (fst p1) (fst r) y (fst pb), snd p1)
     | ESwitch e1 arms =>
         p1 <- freeze B e1 ;;
         r <- (fix go (arms : list (pat * expr)) : outcome (list (pat * expr)) :=
